@@ -121,3 +121,26 @@ Theorem C12_fold_leaf_drops g T s t u g' :
   is_tree g -> leaves_are g T -> fold s t u g = Some g' -> deg g u = 1 -> In u T /\ deg g' u = 0 /\ ~ leaves_are g' T.
 Proof. exact (fold_leaf_drops g T s t u g'). Qed.
 Print Assumptions C12_fold_leaf_drops.
+
+(* ------------------------------------------------------------------ client API: JunctionRef::removeJunctionAndMergeConnectors
+   (scene op RMJ of checks/c12.py): taking out a junction that has exactly two connectors - its two edges become one edge
+   between its former neighbours - keeps "tree whose degree-1 nodes are exactly T" and changes no other node's degree *)
+Theorem C12_remove_junction_preserves g T j g' :
+  is_tree g -> leaves_are g T -> remove_junction j g = Some g' ->
+  is_tree g' /\ leaves_are g' T /\ deg g' j = 0 /\ forall x, x <> j -> deg g' x = deg g x.
+Proof. exact (remove_junction_preserves g T j g'). Qed.
+Print Assumptions C12_remove_junction_preserves.
+
+(* any history mixing the improver's / rerouter's abstract operations with client removals of degree-2 junctions *)
+Theorem C12_client_ops T ops g :
+  is_tree g -> leaves_are g T -> is_tree (run_cops T g ops) /\ leaves_are (run_cops T g ops) T.
+Proof. exact (client_ops_preserve T ops g). Qed.
+Print Assumptions C12_client_ops.
+
+(* the defective removal that leaves the surviving connector on the deleted junction splits the hyperedge *)
+Theorem C12_remove_junction_wrong_end_refuted :
+  exists g T j g',
+    is_tree g /\ leaves_are g T /\ deg g j = 2 /\ remove_junction_wrong_end j g = Some g' /\
+    ~ connected g' /\ ~ leaves_are g' T /\ is_tree_with_leaves g' T = false.
+Proof. exact remove_junction_wrong_end_refuted. Qed.
+Print Assumptions C12_remove_junction_wrong_end_refuted.
